@@ -34,7 +34,7 @@ for f in sorted(glob.glob("/verif/seeded/*/meta.json")):
 out = ["# Seeded changes", "",
        "Each directory holds `patch.diff`, the demonstration (breaking changes), `NOTES.md` (the author's description) and `meta.json` (what was run, what every check reported).",
        "All were produced by sub-agents that saw only property text and a scratch worktree — nothing from `/verif`; each breaking change was confirmed (patch applies, 33 baseline tests pass with it, "
-       "demonstration fails with it and passes without it). `m1, m2` = wave 1, `m3, m4` = wave 2, `m5, m6` = wave 3, `m7` = wave 4, `m8` = wave 5; `B<k>-b<i>` = harmless maintenance changes (every property still holds): `b1..b3` first batch, `b4..b6` second batch (control-flow / data-flow rewrites).", "",
+       "demonstration fails with it and passes without it). `m1, m2` = wave 1, `m3, m4` = wave 2, `m5, m6` = wave 3, `m7` = wave 4, `m8` = wave 5, `m9` = wave 6 (run once against the final checks, no strengthening afterwards); `B<k>-b<i>` = harmless maintenance changes (every property still holds): `b1..b3` first batch, `b4..b6` second batch (control-flow / data-flow rewrites).", "",
        "## Breaking changes", "",
        "| id | breaks | caught by its own check | how (first violation) | also caught by (checks run in the latest round) | latest round | history | what it needs |", "|---|---|---|---|---|---|---|---|"]
 for r in rows:
